@@ -12,6 +12,7 @@ extern "C" {
 
 #define NSIM_MAXF 16            /* fibres alive at once when happens-before tracking is on */
 #define NSIM_MAXSLOTS 16
+#define NSIM_MAXWATCH 96
 
 /* ---- choice kinds (one choice stream decides everything) ---- */
 enum {
@@ -65,6 +66,7 @@ void nsim_op_end (void);
 int  nsim_op_sleeps (void);      /* blocking kernel waits by this fibre since op_begin */
 int  nsim_op_atomics (void);     /* atomic operations by this fibre since op_begin */
 int  nsim_op_idle_jumps (void);
+int64_t nsim_op_last_timer_wake_ns (void); /* virtual time at which this fibre was last released from a blocking wait by that wait's own timer in this op, -1 none */
 int64_t nsim_op_last_timed_block_ns (void); /* virtual time at which this fibre last began a TIMED blocking wait in this op, -1 none */  /* clock jumps that were needed to wake this fibre since op_begin */
 
 /* ---- choices ---- */
@@ -89,6 +91,11 @@ void  nsim_client_write (void *p, int size, int site);
 void  nsim_guard_buffer (void *buf, int n, void *block, int blocklen); /* C16: stores into block outside buf[0..n) are violations */
 void  nsim_unguard_buffer (void);
 int   nsim_is_live (const void *p);
+
+/* ---- write watches: who is the first simulated thread to store to a 4-byte word after the watch was set ---- */
+void nsim_watch_set (int slot, const void *p);
+int  nsim_watch_first_writer (int slot);     /* tid, or -1 if nobody has stored to it since */
+void nsim_watch_clear (int slot);
 
 /* ---- happens-before edges created by the harness itself ---- */
 void nsim_hb_release (int chan);
